@@ -48,7 +48,7 @@ KNOWN = {
 
 
 def table(ctx):
-    g = ctx.dump_graph("CompressionMC", "CompressionMC.cfg", workers=4)
+    g = ctx.dump_graph("CompressionMC", ctx.pick("CompressionMC.cfg", "CompressionMCT.cfg"), workers=4)
     cases = []
     for nid in sorted(g.nodes, key=lambda x: g.nodes[x]):
         c0 = parse_tla_state(g.nodes[nid], only={"cfg"})["cfg"]
